@@ -164,6 +164,11 @@ func runOne(c *vf.Ctx, sc scenario, seed uint64, rng *rand.Rand) {
 	defer twin.Close()
 	sampled := false
 	viol0 := c.Violations()
+	// a failing tx whose label marks it as built to fail is replaced by a substitute on the twin (the
+	// twin stays free of failed txs); a failing tx of an ordinary kind is probed (see below)
+	builtToFail := func(label string) bool {
+		return strings.HasPrefix(label, "fail") || strings.HasPrefix(label, "ante") || label == "oog" || label == "burn" || label == "hog"
+	}
 	for bi, blk := range h.Blocks {
 		real.BeginBlock()
 		var results []*chainsim.TxResult
@@ -194,6 +199,31 @@ func runOne(c *vf.Ctx, sc scenario, seed uint64, rng *rand.Rand) {
 				if !sampled && nt {
 					sampled = true
 					c.Sample(map[string]any{"scenario": sc.name, "tx": t, "error": clip(tr.ErrString, 160), "cause": cause, "gas_used": tr.Res.GasUsed})
+				}
+				if sc.maxGas == 0 && !builtToFail(t.Label) && !strings.Contains(cause, "block-gas") {
+					// (only without a finite block gas limit: the substitutes use less block gas than the
+					// failed txs they replace, so under a tight limit the two chains legitimately differ in
+					// which later txs still fit)
+					// probe: the twin executes the failing tx itself. Its own failure then leaves the same
+					// (possibly wrong) trace on both chains, so the state comparison loses its power for THIS tx,
+					// but a tx that fails only because of what earlier failed txs left behind is exposed: the
+					// twin has substitutes for those.
+					tw := hist.PlayTx(twin, t)
+					if chainsim.AntePassed(tw) {
+						twin.Acc(t.Signer).Seq++
+					}
+					c.Count("failed_tx_probed_on_twin", 1)
+					if tw.ResultKey() != tr.ResultKey() {
+						key := "later-tx-differs-after-failed-tx"
+						if tw.OK {
+							key = "tx-fails-only-after-failed-tx"
+						}
+						c.Violation(key+":"+strings.Join(uniq(failedCausesSoFar(h, results, bi, ti, failedCauses[:len(failedCauses)-1])), "+"),
+							map[string]any{"scenario": sc, "history": h, "block": bi, "index": ti, "tx": t},
+							"scenario %s seed %d block %d tx %d (%s): result with earlier failed txs present != result in the twin where they were replaced\n  real: ok=%v gas=%d %s\n  twin: ok=%v gas=%d %s",
+							sc.name, seed, bi, ti, t.Label, tr.OK, tr.Res.GasUsed, clip(tr.ErrString+string(tr.Res.Data), 200), tw.OK, tw.Res.GasUsed, clip(tw.ErrString+string(tw.Res.Data), 200))
+					}
+					continue
 				}
 				if chainsim.AntePassed(tr) {
 					// the twin pays the same fee and bumps the same sequence with a transaction that has no other effect
